@@ -170,9 +170,9 @@ PROPS = {
     'C19': P(['keytree', 'keylist'],
              [(['CAPBOUND'], ['keytree', 'keylist'], ['V'])],
              [(['CAP'], ['keytree', 'keylist'], ['V'])],
-             [('debug', 'key', 300, 80, None), ('release', 'key', 60, 600, None), ('release', 'export', 1, 20000, {'ITV_SNAP_EVERY': '1000000'})],
-             [('debug', 'key', 3000, 80, None), ('release', 'key', 600, 600, None), ('release', 'export', 1, 300000, {'ITV_SNAP_EVERY': '1000000'})],
-             sample_ops=['V']),
+             [('debug', 'key', 300, 80, None), ('release', 'key', 60, 600, None), ('release', 'export', 1, 2000, {'ITV_SNAP_EVERY': '1000000'})],
+             [('debug', 'key', 3000, 80, None), ('release', 'key', 600, 600, None), ('release', 'export', 1, 5000, {'ITV_SNAP_EVERY': '1000000'})],
+             sample_ops=['V'], direct=dict(quick=['bigexport', 300000], thorough=['bigexport', 5000000])),
     'C20': P(['keytree', 'keylist'],
              [(['LIVEONLY'], ['keytree', 'keylist'], None)],
              [(['CALLS'], ['keytree'], None)],
